@@ -30,6 +30,7 @@ from pycel.excelutil import (
     VALUE_ERROR,
 )
 from pycel.lib.function_helpers import (
+    caller_name_space,
     excel_helper,
 )
 
@@ -247,7 +248,7 @@ def index(array, row_num, col_num=None):
 
     if is_address(array[0][0]):
         assert len({a for a in flatten(array)}) == 1
-        _C_ = index.excel_func_meta['name_space']['_C_']
+        _C_ = caller_name_space(index)['_C_']
         ref_addr = array[0][0].address_at_offset
     else:
         ref_addr = None
@@ -297,6 +298,9 @@ def index(array, row_num, col_num=None):
 
     else:
         return array
+
+
+index.needs_name_space = True
 
 
 @excel_helper(cse_params=0, number_params=1)
